@@ -44,7 +44,30 @@ Section C14.
   Proof.
     intros a name text i a0 rest Hv Hi Hm. unfold run. rewrite Hi, Hv, Hm. cbn. auto.
   Qed.
+
+  (** A help token that follows a "--" within a command's own arguments is ordinary data: the scan for the
+      help token stops at the first "--" ([help_index] is [None] whatever [more] holds), and on a command
+      without sub-commands the whole vector is validated against the spec like any other — the result is that
+      of the addressed command on these arguments, or of its rejection. *)
+  Theorem C14_help_after_dd_is_data :
+    forall c i policy path pre more levels paths filled err,
+      c_subs c = [] -> plain pre = true ->
+      help_index (pre ++ s_dd :: more) = None /\
+      parse_cmd parse_float getenv c i policy path (pre ++ s_dd :: more) levels paths filled err =
+      match fsm_parse parse_float i (pre ++ s_dd :: more) with
+      | PFuelOut => mkResult RFuel [] err filled
+      | PUsage => reject_result parse_float getenv c i policy path EUsage err filled
+      | PConv => reject_result parse_float getenv c i policy path EConv err filled
+      | PAccept o a => leaf_result parse_float getenv c i policy path (levels ++ [mkLevel (c_before c) (c_after c)])
+                                   (paths ++ [path]) err (filled ++ [(path, o, a)])
+      end.
+  Proof.
+    intros c i policy path pre more levels paths filled err Hs Hp. split.
+    - exact (help_index_dd pre more Hp).
+    - exact (parse_cmd_help_after_dd parse_float getenv c i policy path pre more levels paths filled err Hs Hp).
+  Qed.
 End C14.
+Print Assumptions C14_help_after_dd_is_data.
 Print Assumptions C14_help.
 Print Assumptions C14_help_result.
 Print Assumptions C14_version.
@@ -61,4 +84,16 @@ Example C14_nonvacuous :
   let r := run pf ge (mkApp root None) [lit "--bogus"; lit "r"; lit "-h"; lit "a"; lit "b"; lit "c"] in
   (r_outcome r, r_trace r, firstn 2 (r_stderr r))
   = (RExit 0, [], [lit "Usage: app run X"; lit "LONG"]).
+Proof. vm_compute. reflexivity. Qed.
+
+(** "-h" after "--" is bound to the argument like any other token, and the Action runs *)
+Example C14_after_dd_example :
+  let pf := fun _ : str => None in
+  let ge := fun _ : str => [] in
+  let root := Cmd (lit "app") [] [] false (lit "X...") (Some 0)
+                  [mkDecl false KStrings (lit "X") [] [] false (VStrs []) false]
+                  HAbsent HReturns HAbsent [] in
+  let r := run pf ge (mkApp root None) [lit "--"; lit "-h"; lit "--help"] in
+  (r_outcome r, map fst (r_trace r), map (fun l => map ct_value (snd l)) (r_levels r))
+  = (RRet None, [HAction], [[VStrs [lit "-h"; lit "--help"]]]).
 Proof. vm_compute. reflexivity. Qed.
